@@ -1,9 +1,9 @@
 #!/bin/sh
-# tools/import_seed2.sh PROP BASE : copy /tmp/seed2-PROP/{1,2} to seeded/PROP-(BASE+1), PROP-(BASE+2) and test them
+# tools/import_seed2.sh PROP BASE : copy /tmp/${SEEDDIR:-seed2}-PROP/{1,2} to seeded/PROP-(BASE+1), PROP-(BASE+2) and test them
 p=$1; b=$2
 for i in 1 2; do
   n=$((b+i)); mkdir -p /verif/seeded/$p-$n
-  cp /tmp/seed2-$p/$i/patch.diff /tmp/seed2-$p/$i/demo.py /tmp/seed2-$p/$i/notes.md /verif/seeded/$p-$n/ 2>/dev/null
+  cp /tmp/${SEEDDIR:-seed2}-$p/$i/patch.diff /tmp/${SEEDDIR:-seed2}-$p/$i/demo.py /tmp/${SEEDDIR:-seed2}-$p/$i/notes.md /verif/seeded/$p-$n/ 2>/dev/null
   (cd /verif && python3 tools/seedtest.py $p seeded/$p-$n/patch.diff > /var/tmp/seed_$p-$n.log 2>&1)
   echo "== $p-$n"; grep -v "not-generated" /var/tmp/seed_$p-$n.log | grep "^check\|VIOL\|^OK\|UNDEC\|PATCH" | cut -c1-260
 done
